@@ -117,7 +117,12 @@ def run_verus_unit(unit, tier, seed, prop):
     os.makedirs(os.path.join(BUILD, prop), exist_ok=True)
     rs = os.path.join(BUILD, prop, unit + ".rs")
     try:
-        meta = extract.generate(REPO, tmpl, rs, rs + ".map.json")
+        try:
+            meta = extract.generate(REPO, tmpl, rs, rs + ".map.json")
+        except extract.LostAid:
+            # the loop / statement a proof aid was attached to is gone: verify without that aid; the contracts,
+            # not the aids, decide (see DESIGN.md section 12, "lost aids")
+            meta = extract.generate(REPO, tmpl, rs, rs + ".map.json", lenient=True)
     except extract.ExtractError as e:
         raise Undecided(f"extraction of unit {unit}: {e}")
     res = verus_run.run(rs, log_dir=os.path.join(BUILD, prop, unit + ".vlog"))
@@ -161,7 +166,10 @@ def run_canaries(unit, prop):
     tmpl = os.path.join(HERE, "contracts", ucfg["template"])
     rs = os.path.join(BUILD, prop, unit + "_canary.rs")
     try:
-        meta = extract.generate(REPO, tmpl, rs, rs + ".map.json", canary=True)
+        try:
+            meta = extract.generate(REPO, tmpl, rs, rs + ".map.json", canary=True)
+        except extract.LostAid:
+            meta = extract.generate(REPO, tmpl, rs, rs + ".map.json", canary=True, lenient=True)
     except extract.ExtractError as e:
         raise Undecided(f"canary extraction of unit {unit}: {e}")
     res = verus_run.run(rs, multiple_errors=200)
@@ -193,6 +201,19 @@ def find_witness(prop, seed, budget):
     kind = CONF["properties"][prop].get("witness_search")
     if not kind:
         return None, "no concrete search harness exists for this property"
+    if kind == ["rt_bulk"]:
+        # real Unix socket pairs under both runtimes (replay_rt): a large pipelined flush must arrive intact
+        crate = os.path.join(HERE, "replay_rt")
+        b = subprocess.run(["cargo", "build", "--offline", "--quiet"], cwd=crate, capture_output=True, text=True,
+                           env=dict(os.environ, CARGO_NET_OFFLINE="true"))
+        if b.returncode != 0:
+            return None, "replay_rt does not build against the current tree: " + b.stderr[-600:]
+        exe_rt = os.path.join(BUILD, "replay-rt-target", "debug", "zlink-replay-rt")
+        for rtm in ("tokio", "smol"):
+            p = subprocess.run([exe_rt, "bulk", rtm], capture_output=True, text=True, timeout=600)
+            if p.returncode == 1:
+                return {"kind": "rt_bulk", "runtime": rtm, "output": p.stdout[-1500:]}, ""
+        return None, "the bulk transfer over real socket pairs arrived intact under both runtimes"
     exe, err = replay_bin()
     if not exe:
         return None, "replay crate does not build against the current tree: " + err[-800:]
@@ -375,6 +396,8 @@ def check_property(prop, tier, seed):
             except Exception as e:
                 reps.append({"cmd": cmd, "rc": None, "tail": [str(e)]})
         coverage["thorough"]["finding_replays"] = reps
+    lost = [a for ur in unit_results for a in ur["meta"].get("lost_aids", [])]
+    coverage["lost_aids"] = lost
     rc = 0
     for kf, f in known_hits:
         log(f"KNOWN-FINDING: property={prop} obligation={f['obligation']} {kf['what']}")
@@ -392,11 +415,34 @@ def check_property(prop, tier, seed):
                    "witness": witness, "no_witness_reason": None if witness else why,
                    "replay_cmd": f"python3 check.py replay {path}"}
             json.dump(rep, open(path, "w"), indent=1)
+            if lost and not witness:
+                # proof aids were lost AND no failing input replays on the real code: a failed proof, not a verdict
+                undecided.append(f"obligation {f['obligation']} fails, but proof aids were lost ({'; '.join(lost)[:300]}) and no failing input was found")
+                violations = []
+                break
             suffix = "" if witness else " no-failing-input-found"
             log(f"failed obligation {f['obligation']} in {f['fn']} ({f['repo_site']}): {f['message']}")
             log(f"VIOLATION property={prop} replay={path}{suffix}")
-        rc = 1
-    elif undecided:
+        rc = 1 if violations else 0
+    if not violations and undecided and pcfg.get("witness_search"):
+        # the proof could not be (re)established — lost items / unsupported constructs / lost aids.  That is
+        # never a verdict by itself; but a failing input that replays on the real code is one.
+        try:
+            witness, why = find_witness(prop, seed, 20000 if tier == "quick" else 200000)
+        except Exception as e:
+            witness, why = None, f"witness search crashed: {e}"
+        if witness:
+            os.makedirs(os.path.join(HERE, "replays"), exist_ok=True)
+            path = os.path.join(HERE, "replays", f"{prop}-undecided-proof-with-witness.json")
+            json.dump({"property": prop, "obligation": "(proof undecided) replayed failing input", "function": None, "repo_site": None,
+                       "message": "the contracts could not be re-established on this tree and a failing input was found on the real code",
+                       "verifier_output": "\n".join(undecided)[:3000], "witness": witness, "no_witness_reason": None,
+                       "replay_cmd": f"python3 check.py replay {path}"}, open(path, "w"), indent=1)
+            log(f"proof undecided ({undecided[0][:200]}); a failing input replays on the real code")
+            log(f"VIOLATION property={prop} replay={path}")
+            violations = [{"obligation": "undecided-proof-with-witness"}]
+            rc = 1
+    if not violations and undecided:
         for u in undecided[:10]:
             log(f"UNDECIDED property={prop}: {u[:1500]}")
         rc = 2
@@ -415,6 +461,10 @@ def replay(path):
         w = json.load(open(path)).get("witness") or {}
     except Exception:
         w = {}
+    if w.get("kind") == "rt_bulk":
+        crate = os.path.join(HERE, "replay_rt")
+        subprocess.run(["cargo", "build", "--offline", "--quiet"], cwd=crate, env=dict(os.environ, CARGO_NET_OFFLINE="true"))
+        return subprocess.call([os.path.join(BUILD, "replay-rt-target", "debug", "zlink-replay-rt"), "bulk", w.get("runtime", "tokio")])
     if w.get("kind") == "ser":
         exe = os.path.join(os.path.dirname(exe), "serdiff")
     return subprocess.call([exe, path])
@@ -432,12 +482,27 @@ def main():
     try:
         rc = check_property(a.prop, a.tier, seed)
     except Undecided as e:
-        log(f"UNDECIDED property={a.prop}: {e}")
+        rc_w = None
+        if CONF["properties"][a.prop].get("witness_search"):
+            try:
+                witness, why = find_witness(a.prop, seed, 20000)
+            except Exception:
+                witness = None
+            if witness:
+                os.makedirs(os.path.join(HERE, "replays"), exist_ok=True)
+                path = os.path.join(HERE, "replays", f"{a.prop}-undecided-proof-with-witness.json")
+                json.dump({"property": a.prop, "obligation": "(proof undecided) replayed failing input", "message": str(e)[:2000],
+                           "verifier_output": str(e)[:3000], "witness": witness, "replay_cmd": f"python3 check.py replay {path}"}, open(path, "w"), indent=1)
+                log(f"proof undecided ({str(e)[:200]}); a failing input replays on the real code")
+                log(f"VIOLATION property={a.prop} replay={path}")
+                rc_w = 1
+        if rc_w is None:
+            log(f"UNDECIDED property={a.prop}: {e}")
         # evidence must still be rewritten
         write_evidence(a.prop, a.tier, seed, CONF["properties"][a.prop].get("level", "proof"),
                        {"obligations": 0, "discharged": 0, "checker_cmd": "n/a", "trusted_base": [], "evaluations": 0,
-                        "distinct_nontrivial": 0, "explanation": f"undecided: {e}"}, [], 0.0, 0)
-        rc = 2
+                        "distinct_nontrivial": 0, "explanation": f"undecided: {e}"}, [], 0.0, 1 if rc_w else 0)
+        rc = rc_w or 2
     sys.exit(rc)
 
 
